@@ -131,6 +131,7 @@ ResultOf(D, e) ==
     [] e.act = "setConfig"      -> SetConfigR(D, e.S, e.id, e.key, e.val, h)
     [] e.act = "candRemove"     -> CandRemoveR(e.S, e.cand, h)
     [] e.act = "candAdd"        -> CandAddR(e.S, e.cand)
+    [] e.act = "candBad"        -> FaultR      \* candidate add/remove with a key that is not 33 bytes: CheckWitness faults
     [] OTHER                    -> FaultR
 
 Apply(D, e) ==
